@@ -3,16 +3,45 @@
 BUNDLES = ["core"]
 KANI_UNITS = []
 
+A_DLL = "DualLinkedList contract (abstract view Seq<(E,Duration,usize)>; add = stable insert behind all entries with time <= t, pop_min = remove front, cancel = remove first entry with the id, front_time): assumed — raw-pointer code outside Verus"
+A_DUR = "std::time::Duration modelled by dn(d) = total nanoseconds <= u64::MAX*1e9+999_999_999; ==, <, <=, >, >=, +=, as_nanos follow dn; machine arithmetic is NOT idealised: every +, -=, cast and `t0 += t` is proved free of overflow"
+A_BOUNDS = "resource preconditions of the proved contracts: len < usize::MAX, event_id < usize::MAX (ids never wrap), itr < usize::MAX, time + 2*bucket_width <= Duration::MAX, n*t <= u128::MAX, bucket count >= 1, bucket width >= 1ns"
+A_NEW = "CQueue::new postcondition (well-formed, empty, time 0) assumed: iterator adaptors outside the subset"
+A_HANDLER = "event handlers / at_sim_end (user code, reached through R3) keep Runtime::inv, do not move clock or counters and are entered once per call: assumed contract on user code"
+A_CLOCK = "the global SIMTIME atomics are mirrored by a ghost field written right after every SimTime::set_now (R4); Runtime::sim_time/SimTime::now return the mirror: assumed here, discharged for set_now/now by Kani unit simtime"
+A_BUILD = "Builder::build (mutex, RNG install) is not extracted: its postcondition (inv, clock = start_time, empty event set) is assumed; FutureEventSet::new_with, which it calls, is proved"
+A_DERIVE = "#[derive(PartialEq, PartialOrd, ..)] on SimTime/State compare structurally: assumed"
+
 PROPS = {
     "C01": {
         "bundles": ["core"],
-        "fns": {"core": ["CQueue::add", "CQueue::fetch_next", "CQueue::cancel"]},
-        "assumptions": [
-            "DualLinkedList contract (abstract view Seq<(E,Duration,usize)>; add = stable insert behind all entries with time <= t, pop_min = remove front, cancel = remove first entry with the id, front_time): assumed, raw-pointer code outside Verus",
-            "std::time::Duration modelled by dn(d) = total nanoseconds <= u64::MAX*1e9+999_999_999; ==, <, <=, >, >=, +=, as_nanos follow dn; machine arithmetic is NOT idealised: every +, -=, cast and `t0 += t` is proved free of overflow",
-            "preconditions of the proved contracts: len < usize::MAX, event_id < usize::MAX (ids never wrap), time + 2*bucket_width <= Duration::MAX, n*t <= u128::MAX, bucket count >= 1, bucket width >= 1ns",
-            "CQueue::new postcondition (wf, empty, now = 0) assumed: uses iterator adaptors outside the subset",
-        ],
-        "not_covered": ["memory safety of the linked list / allocator (C15)"],
+        "fns": {"core": ["CQueue::add", "CQueue::fetch_next", "CQueue::cancel", "cqueue_impl::FutureEventSet::add", "cqueue_impl::FutureEventSet::fetch_next"]},
+        "assumptions": [A_DLL, A_DUR, A_BOUNDS, A_NEW, "cancel: the handle was returned by add of this queue (a pending entry with the handle's id carries the handle's time)"],
+        "not_covered": ["memory safety of the linked list / allocator (C15)", "history-level statements follow from the per-operation abstract transitions a_add/a_fetch/a_cancel by induction; the induction itself is stated in DESIGN.md, not mechanised"],
+    },
+    "C02": {
+        "bundles": ["core"],
+        "fns": {"core": ["CQueue::add", "CQueue::fetch_next", "cqueue_impl::FutureEventSet::new_with", "cqueue_impl::FutureEventSet::add", "Runtime::dispatch_event", "Runtime::dispatch_all", "Runtime::add_event"]},
+        "assumptions": [A_DLL, A_DUR, A_BOUNDS, A_NEW, A_HANDLER, A_CLOCK, A_BUILD, A_DERIVE],
+        "not_covered": ["'scheduling at or after now always succeeds' (absence of the panic) is the total-correctness reading; proved here is the partial one: add_event returns only for time >= now, and its precondition is satisfiable for time >= now (vacuity probe)",
+                        "SimTime::now() as observed from inside user handlers is the real global (Kani unit simtime)"],
+    },
+    "C03": {
+        "bundles": ["core"],
+        "fns": {"core": ["CQueue::add", "CQueue::fetch_next"]},
+        "assumptions": [A_DLL, A_DUR, A_BOUNDS, A_NEW],
+        "not_covered": ["buf_process flushing a handler's buffered sends in emission order (net/runtime/ctx.rs: global Mutex, outside the subset)", "BinaryHeap back end (only promises time order)"],
+    },
+    "C10": {
+        "bundles": ["core"],
+        "fns": {"core": ["CQueue::peek_time", "cqueue_impl::FutureEventSet::peek_time", "RuntimeLimit::applies", "Runtime::dispatch_event", "Runtime::dispatch_all", "Runtime::dispatch_n_events", "Runtime::dispatch_events_until", "Runtime::add_event", "Runtime::num_events_remaining"]},
+        "assumptions": [A_DLL, A_DUR, A_BOUNDS, A_NEW, A_HANDLER, A_CLOCK, A_BUILD, A_DERIVE],
+        "not_covered": ["termination of dispatch_all (handlers may schedule forever): partial correctness", "Runtime::start (macro_rules inside the body) not extracted"],
+    },
+    "C11": {
+        "bundles": ["core"],
+        "fns": {"core": ["RuntimeLimit::applies", "RuntimeLimit::add", "Runtime::dispatch_event", "Runtime::dispatch_all", "Runtime::finish", "Builder::max_itr", "Builder::max_time", "Builder::limit"]},
+        "assumptions": [A_DLL, A_DUR, A_BOUNDS, A_NEW, A_HANDLER, A_CLOCK, A_BUILD, A_DERIVE, "Profiler::finish (Instant::now) leaves `remaining` untouched: assumed"],
+        "not_covered": ["print-only `if !self.quiet {..}` blocks of finish are elided (R7)", "Runtime::run = start; dispatch_all; finish is not extracted (start contains macro_rules)"],
     },
 }
